@@ -259,6 +259,22 @@ def build_cases(tier, rnd):
                 cases.append(("%s < %s <= %s" % (gal.src(a), gal.src(b), gal.src(b + 1)), gallina(T("chain", lit(a), [("<", lit(b)), ("<=", lit(b + 1))])), [], "bigcmp"))
                 cases.append(("v0 < v1 or v0 == v1 or v0 > v1", gallina(T("or", [T("chain", T("var", 0), [("<", T("var", 1))]), T("chain", T("var", 0), [("==", T("var", 1))]),
                                                                                T("chain", T("var", 0), [(">", T("var", 1))])])), [a, b], "bigcmp"))
+    # an operand used twice: evaluating one occurrence must not change what the other one evaluates to ------------------
+    for v in ([1], [], [1, 2], [[1]], "ab", 5, 2.5):
+        for a in (2, "x", 2.5, True, None):
+            for b in (3, "y"):
+                V, A, B = T("var", 0), lit(a), lit(b)
+                sa, sb = gal.src(a), gal.src(b)
+                for srctxt, t in [("v0 + %s + v0" % sa, T("bin", "+", T("bin", "+", V, A), V)),
+                                  ("(v0 + %s) + (v0 + %s)" % (sa, sb), T("bin", "+", T("bin", "+", V, A), T("bin", "+", V, B))),
+                                  ("v0 + %s != v0" % sa, T("chain", T("bin", "+", V, A), [("!=", V)])),
+                                  ("v0 + %s == v0 + %s" % (sa, sa), T("chain", T("bin", "+", V, A), [("==", T("bin", "+", V, A))])),
+                                  ("v0 + %s + %s == v0 + %s + %s" % (sa, sb, sa, sb), T("chain", T("bin", "+", T("bin", "+", V, A), B), [("==", T("bin", "+", T("bin", "+", V, A), B))])),
+                                  ("v0 * 2 + v0", T("bin", "+", T("bin", "*", V, lit(2)), V)),
+                                  ("v0 - %s + v0" % sa, T("bin", "+", T("bin", "-", V, A), V))]:
+                    if a is None and " - " in srctxt:
+                        continue          # list - NULL is not arithmetic; the empty list and the others differ (outside the statement)
+                    cases.append((srctxt, gallina(t), [v], "shared"))
     # random trees ---------------------------------------------------------------
     n = 2500 if tier != "thorough" else 30000
     for i in range(n):
